@@ -1,13 +1,13 @@
-\* deviation-tolerant: only used to classify a trace the strict configuration rejected
-\* (which named deviation of the pinned tree explains it) and to keep checking the rest of it.
-\* AllowSilentInit stays FALSE: that defect was repaired in /repo (930d13f); the driver sets it to TRUE
-\* only to NAME a violation should the old behaviour come back.
+\* deviation-tolerant configuration.  ALL findings are repaired in /repo (930d13f, 4ef0222, 8020218,
+\* 8c78f49), so every constant is FALSE here (= WsTrace.cfg); the driver sets them to TRUE only to NAME
+\* a violation should one of the old behaviours come back (and, while a finding is open, a constant
+\* set to TRUE here keeps the rest of such traces checked).
 SPECIFICATION TraceSpec
 CONSTANTS
-  AllowDupStart = TRUE
+  AllowDupStart = FALSE
   AllowSilentInit = FALSE
-  AllowRestartRace = TRUE
-  AllowDoubleError = TRUE
+  AllowRestartRace = FALSE
+  AllowDoubleError = FALSE
   SInsts = {}
   SIds = {}
   SK = 0
